@@ -2,4 +2,4 @@
 From Coq Require Import ExtrOcamlBasic.
 From GoldV Require Import Base Tokens Lexer AstKinds Tree Lints.
 Extraction Language OCaml.
-Separate Extraction Lints.lints Lints.lints_k Lints.request Lints.fresh_doc Lints.dclass_idx Base.upper.
+Separate Extraction Lints.lints Lints.lints_old Lints.request Lints.fresh_doc Lints.dclass_idx Base.upper.
